@@ -12,6 +12,8 @@ from ddsmt import cli as _cli  # noqa: E402
 from ddsmt.nodes import Node  # noqa: E402
 
 _cli.setup_logging()
+import logging as _logging  # noqa: E402
+_logging.getLogger().setLevel(_logging.CRITICAL)
 ARGS = options.args()
 _TMP = tempfile.mkdtemp(prefix='verif-impl-')
 
